@@ -8,6 +8,7 @@ import (
 	"math/rand"
 	"os"
 	"path/filepath"
+	"sort"
 	"strconv"
 	"strings"
 
@@ -582,7 +583,7 @@ func (e *env) corruptionCase(caseID string, s *store, m mutation, mode string) {
 	// the refused import leaves no object behind that a freshly initialised database does not have (an index, a table)
 	if extra := e.schemaExtras(path); len(extra) > 0 {
 		detail["schema_objects_left_behind"] = extra
-		r.Violate("refused-import-leaves-schema-objects|"+m.class, fmt.Sprintf("start-up refused the import (%s) and left %v in the database file: later starts (with any file, or none) work on a different schema", clip(res.err.Error(), 120), extra), caseID, detail)
+		r.Violate("refused-import-leaves-schema-objects|"+m.class, fmt.Sprintf("start-up refused the import (%s) and changed the schema of the database file (%v): later starts (with any file, or none) work on a different schema", clip(res.err.Error(), 120), extra), caseID, detail)
 		return
 	}
 	r.Count("schemas_compared_after_a_refusal", 1)
@@ -677,10 +678,18 @@ func (e *env) schemaExtras(path string) []string {
 		return nil
 	}
 	var extra []string
+	have := map[string]bool{}
 	for _, o := range objs {
+		have[o] = true
 		if !e.pristine[o] {
-			extra = append(extra, o)
+			extra = append(extra, "left behind: "+o)
 		}
 	}
+	for o := range e.pristine {
+		if !have[o] {
+			extra = append(extra, "missing: "+o)
+		}
+	}
+	sort.Strings(extra)
 	return extra
 }
